@@ -10,15 +10,7 @@ claimed = [c["property_id"] for c in manifest["checks"]]
 d = os.path.join(VERIF, "selftest", "refactors")
 # refactors_ext/: written by independent sub-agents (see selftest/REFACTOR_FIRST_RUN.json); two of them still raise an alarm and
 # are listed as known limitations of the rules (DESIGN.md 5c) — they are run and reported, but do not fail this script
-KNOWN_LIMITATIONS = {
-    "B1-R3.diff": "match arms yield Results that are `?`-ed once after the match: the error is built into a local and propagated later (path-insensitive E1.c / E7.l / U-PEEK follow an infeasible path)",
-    "B2-R1.diff": "checker element loops rewritten with try_fold / map-collect + a second loop (C06.L conjunction rule does not look into std adaptor closures)",
-    "B5-R1.diff": "each result paired with its debug info in a tuple before a single with_context (E2.x-d cannot pair them)",
-    "B6-R3.diff": "`for (i, x) in v.iter().enumerate()` rewritten as an index-driven while (C14 sequence rule, E1.a index, E1.c loop)",
-    "B7-R2.diff": "stdlib eq rewritten as one flat match over the pair (C13.EQ reads the nested table)",
-    "B7-R3.diff": "variadic parameter loops rewritten with iter::from_fn(..).try_fold (E8.a variadic shape)",
-    "B9-R1.diff": "from_nodes through a local closure, named_capture as an explicit loop (C03.Q / E3.x)",
-}
+KNOWN_LIMITATIONS = json.load(open(os.path.join(VERIF, "selftest", "known_limitations.json")))
 bad = 0
 assert sh("git", "-C", "/repo", "status", "--porcelain").stdout.strip() == "", "/repo has local changes"
 ext = os.path.join(VERIF, "selftest", "refactors_ext")
